@@ -1,12 +1,16 @@
 (* C07 — Logger context is exact and isolated across derived loggers.
-   Only statements closed by [exact]; the proofs are in C07/{Proofs,Sim,Path,Main,Iso,Alias,Pool,Fault}.v.
+   Only statements closed by [exact]; the proofs are in C07/{Proofs,Sim,Path,Main,Iso,Alias,Pool,Fault,Level}.v.
 
    Vocabulary (C07/Model.v).  A configuration is a root composition [comp] of cores (JSON, console,
    observer leaves under tee / sampler / hooked / level-increased / lazy wrappers).  A program is a
    list of operations, executed in order: [ODerive parent step w] (With, WithLazy, Named,
    WithOptions(Fields), Sugar, Desugar — plain or sugared) and [OLog node hi msg fields w]; [w] is the
    value a world variable has at that moment, which MUTABLE marshalers ([SMObj] ...) read when they are
-   invoked.  [run_events]: the operational model of zap's code (loggers holding cores, encoder states,
+   invoked; [hi : lvq] is the level of the call ([lv hi]: zapcore.Level by number, Debug -1 .. Error 2) AND
+   the level state at that moment ([le hi]: the value of every AtomicLevel of the configuration -- leaves and
+   IncreaseLevel filters may share AtomicLevels that the program changes with SetLevel between any two
+   operations, in both directions, also into states where a filter enables what the core it wraps
+   rejects).  A derivation carries no level state: no With reads one.  [run_events]: the operational model of zap's code (loggers holding cores, encoder states,
    observer contexts, a store of sync.Once cells).  [spec_events]: the specification — a logger IS its
    derivation path (name segments + context items); a call emits, on every sink its level reaches,
    the line printed from the tree-level semantics (Enc/JsonAst.v) of: level, dot-joined non-empty
@@ -16,7 +20,7 @@ From Coq Require Import List ZArith Bool.
 From Coq.Strings Require Import Byte.
 Import ListNotations.
 From Zap Require Import Base.Wire Enc.Bytes Enc.Fields Enc.JsonEnc Enc.JsonAst Enc.Wf.
-From Zap Require Import C07.Model C07.Proofs C07.Sim C07.Path C07.Main C07.Iso C07.Alias C07.Pool C07.Fault.
+From Zap Require Import C07.Model C07.Proofs C07.Sim C07.Path C07.Main C07.Iso C07.Alias C07.Pool C07.Fault C07.Level.
 
 (* for every configuration, every program (any tree shape, any number of nodes, any order of
    derivations and uses, mutable marshalers included): every logging call makes observable exactly
@@ -254,6 +258,55 @@ Theorem C07_pool_double_free_refuted :
 Proof. exact pool_double_free_refuted. Qed.
 Print Assumptions C07_pool_double_free_refuted.
 
+(* LEVEL STATE.  Levels gate, they never edit.  [path_lines]: the lines of a path over a composition, one per
+   sink -- a function of the level NUMBER printed in the line, the name, the message, the path's items and
+   the call-site fields; no threshold, static or atomic, is consulted.  Under ANY level state the lines a
+   walk of the specification delivers are lines of the path, in order (a sub-list: a disabled part delivers
+   nothing); all of them when every filter admits the entry *)
+Theorem C07_level_gate : forall m hi nm msg w fs c ch nn,
+  sublist (lines_of (res_evs (swalk m hi nm msg w fs c ch nn))) (path_lines m (lv hi) nm msg w fs c ch).
+Proof. exact level_gate. Qed.
+Print Assumptions C07_level_gate.
+Theorem C07_level_open : forall m hi nm msg w fs c ch nn, all_admit hi c = true ->
+  lines_of (res_evs (swalk m hi nm msg w fs c ch nn)) = path_lines m (lv hi) nm msg w fs c ch.
+Proof. exact level_open. Qed.
+Print Assumptions C07_level_open.
+(* ... and so does the operational model of zap's code, after ANY program: whatever the levels and level
+   states of the earlier calls, whatever the AtomicLevels were when logger n and its ancestors were derived
+   (before or after any SetLevel), whatever they are now, the call delivers nothing but lines of n's own
+   derivation path -- With / WithLazy / WithOptions(Fields) / Sugar().With under a level filter never yields
+   the parent's context *)
+Theorem C07_levels_gate_only : forall c ops n sn hi msg fs w,
+  wf_comp c = true -> forallb wf_op ops = true -> wf_sflds fs = true ->
+  nth_error (snodes (sfinal c ops)) n = Some sn ->
+  sublist (lines_of (emits c ops n hi msg fs w))
+          (path_lines (mark_all w (log_marks hi (root_of c) (items sn)) (smarks (sfinal c ops)))
+                      (lv hi) (path_name (segs sn)) msg w fs (root_of c) (items sn)).
+Proof. exact levels_gate_only. Qed.
+Print Assumptions C07_levels_gate_only.
+Theorem C07_levels_open_all : forall c ops n sn hi msg fs w,
+  wf_comp c = true -> forallb wf_op ops = true -> wf_sflds fs = true ->
+  nth_error (snodes (sfinal c ops)) n = Some sn -> all_admit hi (root_of c) = true ->
+  lines_of (emits c ops n hi msg fs w) =
+    path_lines (mark_all w (log_marks hi (root_of c) (items sn)) (smarks (sfinal c ops)))
+               (lv hi) (path_name (segs sn)) msg w fs (root_of c) (items sn).
+Proof. exact levels_open_all. Qed.
+Print Assumptions C07_levels_open_all.
+(* the level history is not part of a logger: two programs that differ only in the levels and level states
+   of their calls ([relevel]) build the same loggers, and with static fields every logger emits the same, at
+   any level and level state, after either *)
+Theorem C07_paths_level_free : forall c ops1 ops2, Forall2 relevel ops1 ops2 ->
+  snodes (sfinal c ops1) = snodes (sfinal c ops2).
+Proof. exact paths_level_free. Qed.
+Print Assumptions C07_paths_level_free.
+Theorem C07_level_history_static : forall c ops1 ops2 n sn hi msg fs w,
+  wf_comp c = true -> forallb wf_op ops1 = true -> forallb wf_op ops2 = true -> wf_sflds fs = true ->
+  static_comp c = true -> forallb static_op ops1 = true -> static_sflds fs = true ->
+  Forall2 relevel ops1 ops2 -> nth_error (snodes (sfinal c ops1)) n = Some sn ->
+  emits c ops1 n hi msg fs w = emits c ops2 n hi msg fs w.
+Proof. exact level_history_static. Qed.
+Print Assumptions C07_level_history_static.
+
 (* the oracle the driver runs is the proved specification: [spec] compares the whole observation -- the
    per-call part and the end-of-history part (every entry re-read after the whole program) -- with what
    [spec_events] prescribes *)
@@ -263,25 +316,25 @@ Print Assumptions C07_wire.
 
 (* ---------- non-vacuity ---------- *)
 Definition sf (k v : bytes) : sfld := SF (FString k v).
-Definition ex_comp : comp := CTee [CFilt true (CLazy [SMObj [x72]] CJson); CHook CObs].
+Definition ex_comp : comp := CTee [CFilt (LStat 1) (CLazy [SMObj [x72]] CJson); CHook CObs].
 Definition ex_ops : list op :=
   [ ODerive 0 (SWith [sf [x61] [x31]]) 1;                 (* 1 = root.With(a=1) *)
     ODerive 1 (SNamed [x78]) 1;                           (* 2 = 1.Named("x") *)
     ODerive 1 (SWithLazy [SMStr [x6c]]) 2;                (* 3 = 1.WithLazy(l=<world>) *)
     ODerive 3 (SNamed []) 2;                              (* 4 = 3.Named("") *)
     ODerive 1 (SWith [SF (FNamespace [x6e]); sf [x62] [x32]]) 3;   (* 5 = 1.With(namespace n, b=2): sibling of 3 *)
-    OLog 4 true [x6d] [sf [x63] [x33]] 5;                 (* first use of 3's core, through its clone 4 *)
-    OLog 3 true [x6d] [] 7;
-    OLog 5 true [x6d] [sf [x63] [x33]] 8;
-    OLog 2 true [x6d] [] 9 ].
+    OLog 4 (at_lvl 1) [x6d] [sf [x63] [x33]] 5;                 (* first use of 3's core, through its clone 4 *)
+    OLog 3 (at_lvl 1) [x6d] [] 7;
+    OLog 5 (at_lvl 1) [x6d] [sf [x63] [x33]] 8;
+    OLog 2 (at_lvl 1) [x6d] [] 9 ].
 Example C07_example_wf : wf_comp ex_comp = true /\ forallb wf_op ex_ops = true.
 Proof. vm_compute. split; reflexivity. Qed.
 (* the third call: logger 5, Warn: both sinks; fields a, then namespace n { b, c }, name empty *)
 Example C07_example_line :
   nth 2 (run_events ex_comp ex_ops) [] =
-    [EOut 0 (Some (json_line true [] [x6d]
+    [EOut 0 (Some (json_line 1 [] [x6d]
         [FObject [x72] (Obj [FInt k_w 1] None); FString [x61] [x31]; FNamespace [x6e]; FString [x62] [x32]; FString [x63] [x33]]));
-     EOut 1 (Some (json_line true [] [x6d]
+     EOut 1 (Some (json_line 1 [] [x6d]
         [FString [x61] [x31]; FNamespace [x6e]; FString [x62] [x32]; FString [x63] [x33]]));
      EHook [] [x6d]].
 Proof. vm_compute. reflexivity. Qed.
@@ -289,16 +342,16 @@ Proof. vm_compute. reflexivity. Qed.
    also in the later call at world 7; the observer, which stores the Field itself, shows the world at which it is rendered *)
 Example C07_example_lazy :
   nth 1 (run_events ex_comp ex_ops) [] =
-    [EOut 0 (Some (json_line true [] [x6d] [FObject [x72] (Obj [FInt k_w 1] None); FString [x61] [x31]; FStringer [x6c] (OOk [x35])]));
-     EOut 1 (Some (json_line true [] [x6d] [FString [x61] [x31]; FStringer [x6c] (OOk [x37])])); EHook [] [x6d]].
+    [EOut 0 (Some (json_line 1 [] [x6d] [FObject [x72] (Obj [FInt k_w 1] None); FString [x61] [x31]; FStringer [x6c] (OOk [x35])]));
+     EOut 1 (Some (json_line 1 [] [x6d] [FString [x61] [x31]; FStringer [x6c] (OOk [x37])])); EHook [] [x6d]].
 Proof. vm_compute. reflexivity. Qed.
 Example C07_example_name : nth 3 (run_events ex_comp ex_ops) [] =
-    [EOut 0 (Some (json_line true [x78] [x6d] [FObject [x72] (Obj [FInt k_w 1] None); FString [x61] [x31]]));
-     EOut 1 (Some (json_line true [x78] [x6d] [FString [x61] [x31]])); EHook [x78] [x6d]].
+    [EOut 0 (Some (json_line 1 [x78] [x6d] [FObject [x72] (Obj [FInt k_w 1] None); FString [x61] [x31]]));
+     EOut 1 (Some (json_line 1 [x78] [x6d] [FString [x61] [x31]])); EHook [x78] [x6d]].
 Proof. vm_compute. reflexivity. Qed.
 (* bytes of one line *)
 Example C07_example_bytes :
-  json_line true [x78] [x6d] [FString [x61] [x31]] =
+  json_line 1 [x78] [x6d] [FString [x61] [x31]] =
     [x7b;x22;x6c;x65;x76;x65;x6c;x22;x3a;x22;x77;x61;x72;x6e;x22;x2c;x22;x6c;x6f;x67;x67;x65;x72;x22;x3a;x22;x78;x22;x2c;
      x22;x6d;x73;x67;x22;x3a;x22;x6d;x22;x2c;x22;x61;x22;x3a;x22;x31;x22;x7d;x0a].
 Proof. vm_compute. reflexivity. Qed.
@@ -306,7 +359,7 @@ Proof. vm_compute. reflexivity. Qed.
    line and the hook event of the same call and every other call are unchanged *)
 Example C07_example_fault :
   nth 1 (apply_faults [[]; [0]] (run_events ex_comp ex_ops)) [] =
-    [EOut 1 (Some (json_line true [] [x6d] [FString [x61] [x31]; FStringer [x6c] (OOk [x37])])); EHook [] [x6d]] /\
+    [EOut 1 (Some (json_line 1 [] [x6d] [FString [x61] [x31]; FStringer [x6c] (OOk [x37])])); EHook [] [x6d]] /\
   nth 2 (apply_faults [[]; [0]] (run_events ex_comp ex_ops)) [] = nth 2 (run_events ex_comp ex_ops) [].
 Proof. vm_compute. split; reflexivity. Qed.
 Example C07_example_pool_inv : pinv pool0.
@@ -315,6 +368,42 @@ Proof. exact pool0_inv. Qed.
    entry on the observer sink is still the line of logger 4 with its own call-site field c=3 *)
 Example C07_example_end_view :
   nth 0 (map (enc_log_end 2) (run_events ex_comp ex_ops)) (SL []) =
-    SL [SL [SL [SB (json_line true [] [x6d] [FObject [x72] (Obj [FInt k_w 1] None); FString [x61] [x31]; FStringer [x6c] (OOk [x35]); FString [x63] [x33]])]];
-        SL [SL [SB (json_line true [] [x6d] [FString [x61] [x31]; FStringer [x6c] (OOk [x35]); FString [x63] [x33]])]]].
+    SL [SL [SL [SB (json_line 1 [] [x6d] [FObject [x72] (Obj [FInt k_w 1] None); FString [x61] [x31]; FStringer [x6c] (OOk [x35]); FString [x63] [x33]])]];
+        SL [SL [SB (json_line 1 [] [x6d] [FString [x61] [x31]; FStringer [x6c] (OOk [x35]); FString [x63] [x33]])]]].
 Proof. vm_compute. reflexivity. Qed.
+
+(* LEVEL STATE: zap.IncreaseLevel(Info) over a JSON leaf built with AtomicLevel 0 (Debug at construction).
+   Logger 1 is derived while the leaf is at Debug; the leaf is then raised to Warn -- the filter now enables
+   Info, which the wrapped core rejects -- and the sibling 2 and the grandchild 3 are derived in THAT state.
+   At Warn all three carry their own paths; at Info nothing is delivered; after lowering again, Info entries
+   of the loggers derived in the raised state carry their paths too. *)
+Definition lv_comp : comp := CFilt (LStat 0) (CFilt (LAtom 0) CJson).
+Definition lv_ops : list op :=
+  [ ODerive 0 (SWith [sf [x6b] [x31]]) 1;                                  (* 1 = root.With(k=1), leaf at Debug *)
+    (* SetLevel(Warn) *)
+    ODerive 0 (SWith [sf [x6b] [x32]]) 1;                                  (* 2 = root.With(k=2), leaf at Warn *)
+    ODerive 2 (SFields [SF (FNamespace [x6e]); sf [x6a] [x34]]) 1;          (* 3 = 2.WithOptions(Fields(namespace n, j=4)) *)
+    OLog 1 {| lv := 1; le := [1%Z] |} [x6d] [] 1;
+    OLog 2 {| lv := 1; le := [1%Z] |} [x6d] [] 1;
+    OLog 3 {| lv := 2; le := [1%Z] |} [x6d] [sf [x63] [x33]] 1;
+    OLog 2 {| lv := 0; le := [1%Z] |} [x6d] [] 1;                          (* Info while the leaf is at Warn: not delivered *)
+    (* SetLevel(Debug) *)
+    OLog 3 {| lv := 0; le := [(-1)%Z] |} [x6d] [] 1;
+    OLog 0 {| lv := (-1); le := [(-1)%Z] |} [x6d] [] 1 ].                  (* Debug: the filter's own level rejects it *)
+Example C07_example_levels :
+  run_events lv_comp lv_ops =
+    [ [EOut 0 (Some (json_line 1 [] [x6d] [FString [x6b] [x31]]))];
+      [EOut 0 (Some (json_line 1 [] [x6d] [FString [x6b] [x32]]))];
+      [EOut 0 (Some (json_line 2 [] [x6d] [FString [x6b] [x32]; FNamespace [x6e]; FString [x6a] [x34]; FString [x63] [x33]]))];
+      [];
+      [EOut 0 (Some (json_line 0 [] [x6d] [FString [x6b] [x32]; FNamespace [x6e]; FString [x6a] [x34]]))];
+      [] ].
+Proof. vm_compute. reflexivity. Qed.
+(* the same through the wire: (3 a level) operations become the level state of the later calls *)
+Example C07_example_setlevel :
+  dec_ops [(-1)%Z] [SL [SZ 1; SZ 0; SZ 1; SB [x6d]; SL []; SZ 1]; SL [SZ 3; SZ 0; SZ 2];
+                     SL [SZ 0; SZ 0; SL [SZ 4]; SZ 1]; SL [SZ 1; SZ 1; SZ 2; SB [x6d]; SL []; SZ 1]] =
+    [OLog 0 {| lv := 1; le := [(-1)%Z] |} [x6d] [] 1; ODerive 0 SSugar 1; OLog 1 {| lv := 2; le := [2%Z] |} [x6d] [] 1].
+Proof. vm_compute. reflexivity. Qed.
+Example C07_example_relevel : Forall2 relevel lv_ops (map (fun o => match o with OLog n _ m f w => OLog n (at_lvl 2) m f w | _ => o end) lv_ops).
+Proof. repeat constructor. Qed.
